@@ -14,7 +14,7 @@ from ai_edge_quantizer import quantizer, recipe
 from ai_edge_quantizer.utils import test_utils
 
 THEOREMS = ["C12.tcfg_roundtrip", "C12.cfg_roundtrip", "C12.d19_witness", "C12.rule_reload",
-            "C12.shipped_load", "C12.defaults_fixpoint"]
+            "C12.shipped_load", "C12.defaults_fixpoint", "C12.reload_reachable"]
 
 MODELS = ["single_fc_bias.tflite", "conv_fc_mnist.tflite", "single_add.tflite", "two_signatures.tflite", "embedding_lookup.tflite"]
 
@@ -81,7 +81,7 @@ def run(ctx):
     ctx.explanation = ("cfg_roundtrip: every constructible config survives to_dict->from_dict (all field values); rule_reload: every exported rule "
                        "reloads as the same add call; shipped_load/defaults_fixpoint: kernel-evaluated over the regenerated recipe table. "
                        "The full-state reload theorem (induction over scopes) is not proved yet; state-level reload is covered by correspondence+oracle.")
-    common.proof_side(ctx, THEOREMS)
+    common.proof_side(ctx, THEOREMS, modules=["QProps.C12", "QProps.C11b"])
     drv = common.Driver()
     rng = ctx.rng
     # config round trip: whole lattice + alphabet, model vs code
